@@ -3,7 +3,7 @@
 From Coq Require Import List ZArith QArith Bool String Reals Qreals.
 From BZ Require Import Base.Ops Base.RInst Base.PyVal Model.Curve Model.Intersect Gen.PyFnHelpers Gen.PyFnGeometric Gen.PyFnIntersect
   Gen.PyIntersectionHelpers Theory.CurveEvalExtra Theory.Predicates Theory.IntersectFlow Theory.IntersectPrune Theory.IntersectPruneR
-  Theory.LocateTheory Theory.RoundTheory.
+  Theory.LocateTheory Theory.RoundTheory Base.QcInst Model.Rounds Theory.Hom Theory.RoundModelTheory.
 Import ListNotations.
 
 (* curves whose control-point boxes are disjoint have no common point: the empty answer is right, every degree *)
@@ -75,3 +75,25 @@ Theorem C03_covering_pair_has_a_covering_child :
     Restr o1x o1y c1x' c1y' a1' b1' /\ Restr o2x o2y c2x' c2y' a2' b2' /\ (a1' <= s <= b1')%R /\ (a2' <= t <= b2')%R.
 Proof. exact covering_pair_has_a_covering_child. Qed.
 Print Assumptions C03_covering_pair_has_a_covering_child.
+
+(* ... and about the EXECUTABLE candidate-flow model (Model/Rounds.v, corresponded round by round with the real loop): step_pair never
+   drops the pair of non-linearized candidates that covers a common point - it is not classified Disjoint, and when it is classified
+   Intersection one of the pairs handed to the next round covers the point again; the initial pair covers every common point *)
+Theorem C03_model_round_keeps_the_common_point :
+  forall (o1x o1y o2x o2y : list R) (f s : cand) (ps pt : R),
+  Rounds.lin f = false -> Rounds.lin s = false ->
+  CoverC o1x o1y f ps -> CoverC o2x o2y s pt -> B o1x ps = B o2x pt -> B o1y ps = B o2y pt ->
+  classify f s <> Disjoint /\
+  (classify f s = Intersection ->
+   exists f' s', In (f', s') (fst (step_pair (f, s))) /\ CoverC o1x o1y f' ps /\ CoverC o2x o2y s' pt).
+Proof. exact step_pair_keeps_the_common_point. Qed.
+Print Assumptions C03_model_round_keeps_the_common_point.
+Theorem C03_model_initial_pair_covers : forall (x1 y1 x2 y2 : list Q) (ps pt : R),
+  (2 <= List.length x1)%nat -> (2 <= List.length y1)%nat -> (2 <= List.length x2)%nat -> (2 <= List.length y2)%nat ->
+  (0 <= ps <= 1)%R -> (0 <= pt <= 1)%R ->
+  match initial x1 y1 x2 y2 with
+  | [(f, s)] => CoverC (map Q2R x1) (map Q2R y1) f ps /\ CoverC (map Q2R x2) (map Q2R y2) s pt
+  | _ => False
+  end.
+Proof. exact initial_covers. Qed.
+Print Assumptions C03_model_initial_pair_covers.
